@@ -116,6 +116,7 @@ Definition obs_ok (r : ren) (n : node) (o : obs) : bool :=
 
 Inductive ev :=
 | EStep (l : labelN) (exp : list out)
+| EObjRemoveU (x o : name) (u : list name) (exp : list out)   (* remove_rpc_object at x while the peers u are unreachable *)
 | ECheck (x : name) (o : obs).
 
 Definition case := (list (name * list name) * list ev)%type.
@@ -150,6 +151,16 @@ Fixpoint first_bad (r : ren) (s : sysN) (es : list ev) (i : nat) : option (nat *
           end
       | None => Some (i, None)
       end
+  | EObjRemoveU x o u exp :: rest =>
+      match getn s x with
+      | Some n =>
+          let '(n', os) := object_removed_u u (w_objs (sdel str_eqb o (n_objs n)) n) o in
+          match match_outs r x os exp with
+          | Some r' => first_bad r' (routeN x os (putn x n' s)) rest (S i)
+          | None => Some (i, Some os)
+          end
+      | None => Some (i, None)
+      end
   | ECheck x o :: rest =>
       match getn s x with
       | Some n => if obs_ok r n o then first_bad r s rest (S i) else Some (i, Some [])
@@ -165,6 +176,11 @@ Fixpoint runN (s : sysN) (es : list ev) : option sysN :=
   match es with
   | [] => Some s
   | EStep l _ :: r => match stepN s l with Some (s', _) => runN s' r | None => None end
+  | EObjRemoveU x o u _ :: r =>
+      match getn s x with
+      | Some n => let '(n', os) := object_removed_u u (w_objs (sdel str_eqb o (n_objs n)) n) o in runN (routeN x os (putn x n' s)) r
+      | None => None
+      end
   | ECheck _ _ :: r => runN s r
   end.
 
